@@ -1,7 +1,8 @@
 """C05 — decided by theorems in coq/Props/C05.v plus the sequential correspondence engine (scripts/seqprops.py)."""
 import json
 import seqprops, crashengine
-TRUSTED = ['hand-written AM (Model/Afs.v), abs_disk/wf_disk (Model/Abs.v), agreement relations (Model/Agree.v): run extracted on the implementation disk and replies',
+TRUSTED = ['AT (Model/AllocModel.v) is a hand transliteration of alloctxn/alloctxn.go, run against it (on-disk bitmap and allocator count after every operation)',
+           'hand-written AM (Model/Afs.v), abs_disk/wf_disk (Model/Abs.v), agreement relations (Model/Agree.v): run extracted on the implementation disk and replies',
            'go-journal obj.Log.Load as the reader of the logical disk']
 ASSUMPTIONS = ['sequential client; checkpoints are judged when the background shrinker is idle (some sequences let it overlap the following calls and wait at explicit points)',
                'crash part: one scripted large-file workload in four variants, crash points sampled from the freeing call onward']
@@ -20,10 +21,20 @@ def run(ctx, ps, gen_bad):
     cov['crash_images_passing_every_relation'] = c2['distinct_nontrivial']
     cov['crash_rule'] = c2['rule']
     cov['evaluations'] += c2['evaluations']
+    # alloctxn over the real allocator and bitmap, several transactions open at once, against the extracted AT
+    import p_c13
+    f3, n3 = p_c13.model_diff(ctx, 'atmodel', 5 if ctx.quick else 150, 600 if ctx.quick else 1500)
+    fails += f3
+    cov['allocation_operations_compared_with_AT'] = n3
+    cov['evaluations'] += n3
     return fails, cov
 
 
 def replay(ctx, path):
-    if 'budget' in json.load(open(path)):
+    r = json.load(open(path))
+    if r.get('kind') == 'atmodel':
+        import p_c13
+        return p_c13.model_replay(ctx, r)
+    if 'budget' in r:
         return crashengine.replay(ctx, path)
     return seqprops.replay(ctx, path)
